@@ -128,6 +128,44 @@ theorem checkAlignMin_noFault (al mn : Nat) (s : Slice) : (checkAlignMin al mn s
   · simp
   · split <;> simp
 
+/-- the content of a mapped value, as the safe accessors show it (deep read). Capacities are part of what the accessors
+show but not of the *content*: `strip` forgets them. -/
+inductive Val where
+  | raw (bs : Bytes)                    -- a plain sized scalar, by its bytes
+  | bool (b : Bool)
+  | arr (xs : List Val)
+  | tuple (xs : List Val)               -- struct fields
+  | tag (i : Nat) (xs : List Val)       -- enum variant and its fields
+  | vec (cap : Nat) (xs : List Val)
+  | vecZ (cap len : Nat)                -- vector of zero-sized elements
+  | str (cap : Nat) (bs : Bytes)
+  | flex (xs : List Val)
+deriving Repr
+
+mutual
+def Val.strip : Val → Val
+  | .raw bs => .raw bs
+  | .bool b => .bool b
+  | .arr xs => .arr (stripL xs)
+  | .tuple xs => .tuple (stripL xs)
+  | .tag i xs => .tag i (stripL xs)
+  | .vec _ xs => .vec 0 (stripL xs)
+  | .vecZ _ n => .vecZ 0 n
+  | .str _ bs => .str 0 bs
+  | .flex xs => .flex (stripL xs)
+def stripL : List Val → List Val
+  | [] => []
+  | x :: xs => x.strip :: stripL xs
+end
+
+def Res.map {α β} (f : α → β) : Res α → Res β
+  | .ok a => .ok (f a)
+  | .err e => .err e
+  | .fault w => .fault w
+@[simp] theorem Res.map_ok {α β} (f : α → β) (a : α) : (Res.ok a).map f = .ok (f a) := rfl
+@[simp] theorem Res.map_err {α β} (f : α → β) (e : Err) : (Res.err e : Res α).map f = .err e := rfl
+@[simp] theorem Res.map_fault {α β} (f : α → β) (w : Fault) : (Res.fault w : Res α).map f = .fault w := rfl
+
 structure Dict where
   align : Nat
   minSize : Nat
@@ -137,6 +175,8 @@ structure Dict where
   validateU : Slice → Res Unit
   /-- `size()` of the value mapped from this slice (`from_bytes(s).size()`) -/
   size : Slice → Res Nat
+  /-- deep read of the value mapped from this slice through the safe accessors -/
+  walk : Slice → Res Val
 
 namespace Dict
 def ssize (d : Dict) : Nat := d.sized.getD 0
